@@ -153,6 +153,23 @@ pub fn perm_from_index(n: usize, mut idx: u64) -> Vec<usize> {
 }
 
 /// an operation with its operands resolved to pool indices
+/// operand positions of a list operation: short lists use the three operands, long ones repeat the first
+/// two and end with the third (so that every element, the last one in particular, can matter)
+pub fn list_items(x: &[usize; 3], len: usize) -> Vec<usize> {
+    match len {
+        0 => vec![],
+        1 => vec![x[2]],
+        2 => vec![x[0], x[2]],
+        3 => vec![x[0], x[1], x[2]],
+        _ => {
+            let mut v: Vec<usize> = (0..len - 1).map(|j| if j % 2 == 0 { x[0] } else { x[1] }).collect();
+            v.push(x[2]);
+            v
+        }
+    }
+}
+pub const LIST_LENS: [usize; 14] = [3, 3, 3, 0, 1, 2, 4, 7, 33, 64, 65, 67, 100, 129];
+
 #[derive(Clone, Copy)]
 struct Resolved {
     kind: u8,
@@ -160,6 +177,7 @@ struct Resolved {
     label: usize,
     flag: bool,
     bits: (u32, u32),
+    list_len: usize,
     result: Option<usize>,
 }
 
@@ -216,8 +234,8 @@ fn apply<T: IteTable<'static, Ptr> + Default + 'static>(
         }
         K_EXISTS => b.exists(g(0), l),
         K_COMPOSE => b.compose(g(0), l, g(1)),
-        K_ANDLST => b.and_lst(&[g(0), g(1), g(2)]),
-        K_ORLST => b.or_lst(&[g(0), g(1), g(2)]),
+        K_ANDLST => b.and_lst(&list_items(&r.x, r.list_len).iter().map(|i| pool[*i]).collect::<Vec<_>>()),
+        K_ORLST => b.or_lst(&list_items(&r.x, r.list_len).iter().map(|i| pool[*i]).collect::<Vec<_>>()),
         _ => return None,
     })
 }
@@ -251,8 +269,8 @@ fn model_of(r: &Resolved, tts: &[TT], nvars_now: usize) -> TT {
         }
         K_EXISTS => tt::exists(g(0), r.label),
         K_COMPOSE => tt::compose_doc(g(0), r.label, g(1)),
-        K_ANDLST => g(0) & g(1) & g(2),
-        K_ORLST => g(0) | g(1) | g(2),
+        K_ANDLST => list_items(&r.x, r.list_len).iter().fold(tt::TRUE, |a, i| a & tts[*i]),
+        K_ORLST => list_items(&r.x, r.list_len).iter().fold(tt::FALSE, |a, i| a | tts[*i]),
         _ => unreachable!(),
     }
 }
@@ -349,6 +367,7 @@ fn run<T: IteTable<'static, Ptr> + Default + 'static>(plan: &Plan, ctx: &mut Ctx
             label: 0,
             flag: op.a[3] & 1 == 1,
             bits: (0, 0),
+            list_len: LIST_LENS[(op.a[3].unsigned_abs() as usize >> 1) % LIST_LENS.len()],
             result: None,
         };
         match kind {
@@ -642,6 +661,7 @@ impl World for BddWorld {
                 K_CONDMODEL => [gen_operand(&mut o), o.below(128) as i64, o.below(128) as i64, 0],
                 K_REISSUE => [o.below(1 << 16) as i64, 0, 0, 0],
                 K_AUDIT => [gen_operand(&mut au), 0, 0, 0],
+                K_ANDLST | K_ORLST => [gen_operand(&mut o), gen_operand(&mut o), gen_operand(&mut o), (o.below(14) << 1) as i64],
                 _ => [gen_operand(&mut o), gen_operand(&mut o), gen_operand(&mut o), 0],
             };
             ops.push(Op { c: caller, k, a });
